@@ -181,6 +181,9 @@ func slowKey(pk *kslib.PoolKey) bool {
 }
 
 func (e *engine) sectionPool(pool *kslib.Pool, seed uint64) {
+	// every variant for the first key of each key type; in the quick tier further keys of the type
+	// (other parameter sets) only with their own output prefix
+	seenType := map[string]bool{}
 	for i, pk := range pool.Keys {
 		class := primClass(pk.Class)
 		if class == "" {
@@ -196,6 +199,10 @@ func (e *engine) sectionPool(pool *kslib.Pool, seed uint64) {
 		}
 		slow := slowKey(pk)
 		variants := prefixTypes
+		if seenType[pk.Type] && !hlib.Thorough() {
+			variants = []tinkpb.OutputPrefixType{pk.Prefix}
+		}
+		seenType[pk.Type] = true
 		if slow {
 			variants = []tinkpb.OutputPrefixType{pk.Prefix}
 		} else if !hlib.Thorough() && (pk.Type == "RsaSsaPkcs1PrivateKey" || pk.Type == "RsaSsaPssPrivateKey") {
@@ -256,6 +263,7 @@ func (e *engine) poolPrim(pool *kslib.Pool, idx int, class string, pt tinkpb.Out
 			}
 			return p, obs, nil
 		}}
+	src.rndCT = strings.Contains(pk.Name, "MLKEM") || strings.Contains(pk.Name, "XWING")
 	if slow {
 		src.lays = layouts()[:2]
 		src.msgs = 1
@@ -279,6 +287,9 @@ func (e *engine) sectionFull(pool *kslib.Pool, seed uint64) {
 		}
 		if class == "prfset" {
 			class = "prf"
+		}
+		if class == "kd" {
+			class = "keyderiver"
 		}
 		slow := slowKey(pk)
 		if slow && !hlib.Thorough() {
@@ -333,6 +344,7 @@ func (e *engine) sectionFull(pool *kslib.Pool, seed uint64) {
 		}
 		_ = i
 		src := primSrc{api: api, extra: "key=" + pk.Name, class: class, q: q, lays: layouts()[:2], msgs: 1,
+			rndCT: strings.Contains(pk.Name, "MLKEM") || strings.Contains(pk.Name, "XWING"),
 			mk: func() (any, func() string, error) {
 				p, err := fullOf(ks, false)
 				return p, nil, err
